@@ -936,8 +936,17 @@ def interval_of(run, ctx, lits, var_text, integer=True, domain=None):
 
 
 def struct_format(run, ctx, call):
-    """Format string of a call to a bound struct pack/unpack kept in a class attribute; None if not one."""
+    """Format string of a call to a bound struct pack/unpack kept in a class attribute; None if not one.
+    int.from_bytes(b, 'big') is the unsigned big-endian decode of len(b) bytes: reported as ('unpack', '!int') and
+    resolved to !H / !Q by the caller from the number of bytes read."""
     fn = call.func
+    if isinstance(fn, ast.Attribute) and fn.attr == 'from_bytes' and isinstance(fn.value, ast.Name) and fn.value.id == 'int':
+        order = call.args[1] if len(call.args) > 1 else next((k.value for k in call.keywords if k.arg == 'byteorder'), None)
+        signed = next((k.value for k in call.keywords if k.arg == 'signed'), None)
+        if isinstance(order, ast.Constant) and order.value == 'big' and (signed is None or (
+                isinstance(signed, ast.Constant) and signed.value is False)):
+            return ('unpack', '!int')
+        return None
     if not isinstance(fn, ast.Attribute):
         return None
     for t in run.types.expr(fn.value, ctx):
